@@ -585,11 +585,21 @@ Definition d_nullable {A} (dec_entry : json -> option A) (j : json) : option (op
   | _ => option_map Some (dec_entry j)
   end.
 
+(* no key occurs twice *)
+Fixpoint nodupb (l : list N) : bool :=
+  match l with
+  | [] => true
+  | x :: l' => negb (memb N.eqb x l') && nodupb l'
+  end.
+
+(* the keys of "proposer_config" are hex strings: two spellings of one public key ("0xAB..",
+   "0xab..", "ab..") are refused (fix: the entry that won used to depend on Go's map order) *)
 Definition config1_of_json (j : json) : option config1 :=
   match j with
   | JObj o =>
       match d_map (d_nullable proposer1_of_json) (field FPropCfg o) with
       | Some ps =>
+          if negb (nodupb (map fst ps)) then None else
           match field FDefault o with
           | JNull => None                                          (* "default config missing" *)
           | jd => option_map (fun d => {| c1_props := ps; c1_default := Some d |}) (proposer1_of_json jd)
